@@ -85,6 +85,80 @@ Proof.
 Qed.
 
 (* ------------------------------------------------------------------ the theorem *)
+(* the part of the source test that the forest and the affinity need: no empty case *)
+Definition nec_src_b (p : program) : bool :=
+  forallb (fun fd => nec (fn_body fd)) (p_funs p) && forallb (fun pd => nec (pr_body pd)) (p_procs p).
+
+Theorem init_forest_accept p p' :
+  typecheck p = Accept p' -> in_fragment p' -> prog_syn_ok p = true -> raw_ok p = true ->
+  nec_src_b p = true ->
+  funs_aff (p_funs p') /\ Topo (init_config p') /\ LinCfg (init_config p').
+Proof.
+  intros Ha Hf PS RS Hc.
+  pose proof (teq_rt_laws (p_types p')) as Hlaws.
+  pose proof (tc_annotations_typed_rt p p' Ha PS RS Hf) as Hst.
+  destruct (typecheck_erase p p' Ha) as (Sf & Sp & _).
+  pose proof (raw_uninit p RS) as Hu.
+  destruct (tc_linear p p' Hu Ha) as (Lf & Lp & _).
+  destruct (tc_sound (fun _ _ _ => True) (fun _ _ _ _ _ _ _ => I) p p' Ha) as (pe & (_ & _ & Ep & _) & OK).
+  pose proof (elab_procs_shape _ _ _ Ep) as Sh.
+  assert (U : NoDup (flat_map (fun d => map ident (Typing.proc_uses d)) (p_procs p))).
+  { rewrite <- (uses_shape _ _ Sh). exact (pk_uses_once _ _ OK). }
+  assert (P : NoDup (Typing.all_providers (p_procs p))).
+  { rewrite <- (elab_procs_providers _ _ _ Ep). exact (pk_providers_unique _ _ OK). }
+  assert (A : deps_acyclic (p_procs p) = true).
+  { rewrite <- (deps_acyclic_shape _ _ Sh). exact (pk_acyclic _ _ OK). }
+  unfold uninit_prog in Hu. apply andb_true_iff in Hu as [Huf Hup]. rewrite forallb_forall in Huf, Hup.
+  unfold nec_src_b in Hc. apply andb_true_iff in Hc as [Hcf Hcp]. rewrite forallb_forall in Hcf, Hcp.
+  (* the processes of p' against those of p *)
+  assert (Hproc : forall i pr', p_procs p' !! i = Some pr' ->
+            exists pd, p_procs p !! i = Some pd /\ In pd (p_procs p) /\
+              erase_form (pr_body pr') = erase_form (pr_body pd) /\ pr_providers pr' = pr_providers pd).
+  { intros i pr' Hi. destruct (Forall2_lookup_both _ _ _ _ _ Sp Hi) as (pd & Hpd & E1 & E2).
+    exists pd. repeat split; auto. apply elem_of_list_In. eapply elem_of_list_lookup_2; eauto. }
+  assert (Hsrc : forall pd, In pd (p_procs p) ->
+            uninit_form (pr_body pd) = true /\ nec (pr_body pd) = true).
+  { intros pd Hpd. specialize (Hcp pd Hpd). split; auto. }
+  assert (HaffP : forall pr', In pr' (p_procs p') -> affr None (pr_body pr')).
+  { intros pr' Hin. apply elem_of_list_In, elem_of_list_lookup_1 in Hin as [i Hi].
+    destruct (Hproc i pr' Hi) as (pd & _ & Hpd & E & _). destruct (Hsrc pd Hpd) as (H1 & H2).
+    eapply affr_erase_eq; [exact E|]. eapply linear_affr; eauto. }
+  set (us := fun i => match p_procs p !! i with Some pd => proc_scope p pd | None => [] end).
+  assert (Hus : forall i pr' pi x, p_procs p' !! i = Some pr' -> In pi (pnames None (pr_body pr')) -> In (KV x) pi -> In x (us i)).
+  { intros i pr' pi x Hi Hpi Hx. destruct (Hproc i pr' Hi) as (pd & Hpd & Hin & E & _). destruct (Hsrc pd Hin) as (H1 & H2).
+    unfold us. rewrite Hpd. apply str_mem_In.
+    apply (path_var_scope (proc_scope p pd) None (pr_body pd) pi x H1 H2 (Lp pd Hin)); [|done].
+    rewrite <- pnames_erase, <- E, pnames_erase. exact Hpi. }
+  assert (Hus_inv : forall i x, In x (us i) -> exists pd, p_procs p !! i = Some pd /\ In x (map ident (Typing.proc_uses pd))).
+  { intros i x. unfold us. destruct (p_procs p !! i) as [pd|] eqn:E; [|intros []]. intros H. exists pd. split; [done|].
+    eapply scope_uses; eauto. }
+  assert (Hdisj : forall i i' x, In x (us i) -> In x (us i') -> i = i').
+  { intros i i' x H1 H2. apply Hus_inv in H1 as (pd1 & Hp1 & Hx1). apply Hus_inv in H2 as (pd2 & Hp2 & Hx2).
+    eapply (nodup_flat_map_idx (fun d => map ident (Typing.proc_uses d)) (p_procs p) U); eauto. }
+  set (deps := map (proc_deps (p_procs p)) (p_procs p)).
+  set (pos := fun i => idx i (mark_rounds (length deps) deps [])).
+  assert (Hpos : forall i i' pr' n, In (ident n) (us i) -> p_procs p' !! i' = Some pr' -> In n (pr_providers pr') ->
+            (pos i' < pos i)%nat /\ (pos i <= length deps)%nat).
+  { intros i i' pr' n H1 Hi' Hn. apply Hus_inv in H1 as (pd & Hpd & Hx).
+    destruct (Hproc i' pr' Hi') as (pd' & Hpd' & _ & _ & Epv). rewrite Epv in Hn.
+    apply in_map_iff in Hx as (fn & Efn & Hfn).
+    assert (Hlen : length deps = length (p_procs p)) by (unfold deps; apply map_length).
+    assert (L : length (mark_rounds (length deps) deps []) = length deps).
+    { unfold deps_acyclic in A. apply Nat.eqb_eq in A. rewrite Hlen. exact A. }
+    rewrite lookup_nth_error in Hpd, Hpd'.
+    apply (kahn_rank deps L i i').
+    - rewrite Hlen. apply nth_error_Some. congruence.
+    - unfold deps. rewrite (deps_nth _ _ _ Hpd). apply in_proc_deps. exists fn. split; [done|].
+      rewrite Efn. eapply provider_index_nodup; eauto. apply in_map_iff. eauto. }
+  split; [|split].
+  - (* funs_aff *)
+    unfold funs_aff. rewrite Forall_forall. intros fd' Hfd'.
+    destruct (Forall2_In_r _ _ _ _ Sf Hfd') as (fd & Hfd & E). specialize (Hcf fd Hfd).
+    eapply affr_erase_eq; [exact E|]. eapply linear_affr; eauto.
+  - exact (init_topo p' _ Hlaws Hst HaffP us Hus Hdisj pos (length deps) Hpos).
+  - exact (init_lincfg p' _ Hlaws Hst HaffP us Hus Hdisj pos (length deps) Hpos).
+Qed.
+
 Theorem init_linear_accept p p' :
   typecheck p = Accept p' -> in_fragment p' -> prog_syn_ok p = true -> raw_ok p = true ->
   core_src_b p = true -> init_linear p'.
